@@ -102,16 +102,41 @@ def closePayload (pl : Bytes) : Nat × Bytes :=
   | a :: b :: r => (a.toNat * 256 + b.toNat, r)
   | _ => (1005, [])
 
+/-- `(x & 0xC0) == 0x80`: a UTF-8 continuation byte -/
+def isCont (x : UInt8) : Bool := x.toNat / 64 = 2
+
+/-- mirrors `while (n > 0 && (reason[n] & 0xC0) == 0x80) --n;` in `makeClose` -/
+def backoff (r : Bytes) : Nat → Nat
+  | 0 => 0
+  | n + 1 =>
+    match r[n + 1]? with
+    | some x => if isCont x then backoff r n else n + 1
+    | none => n + 1
+
+/-- number of reason bytes `makeClose` keeps: all of them up to `closeReasonMax`, else cut on a UTF-8 character boundary -/
+def closeReasonLen (r : Bytes) : Nat :=
+  if r.length > Gen.Ws.closeReasonMax then backoff r Gen.Ws.closeReasonMax else r.length
+
+/-- the payload `makeClose(code, reason)` builds (the code is a `uint16_t`) -/
+def closeBody (code : Nat) (reason : Bytes) : Bytes :=
+  b8 (code / 256) :: b8 code :: reason.take (closeReasonLen reason)
+
 /-- mirrors `makeClose(code, reason)` -/
 def makeClose (code : Nat) (reason : Bytes) : Frame :=
-  { fin := true, opcode := 8, masked := false, key := zeroKey, payload := b8 (code / 256) :: b8 code :: reason }
+  { fin := true, opcode := 8, masked := false, key := zeroKey, payload := closeBody code reason }
 
 def mkFrame (op : Nat) (fin : Bool) (pl : Bytes) : Frame :=
   { fin := fin, opcode := op, masked := false, key := zeroKey, payload := pl }
 
-/-! ### UTF-8 validator, mirrors `isValidUtf8` -/
+/-- one application send call -/
+inductive Send where
+  | text (bs : Bytes)
+  | binary (bs : Bytes)
+  | ping (bs : Bytes)
+  | close (code : Nat) (reason : Bytes)
+  deriving DecidableEq, Repr
 
-def isCont (x : UInt8) : Bool := x.toNat / 64 = 2      -- (x & 0xC0) == 0x80
+/-! ### UTF-8 validator, mirrors `isValidUtf8` -/
 
 /-- one iteration of the `while` loop: `none` = return false, `some rest` = `i += seqLen` -/
 def utf8Step : Bytes → Option Bytes
